@@ -338,6 +338,8 @@ pub struct RunCtx {
     /// complete records of operations that returned an error under an injected fault: must stay invisible
     pub forbidden_records: RefCell<BTreeSet<(usize, u64)>>,
     pub crash_victims: RefCell<BTreeSet<usize>>,
+    /// blobs that were part of the storage when the last close began
+    pub served_at_close: RefCell<BTreeSet<usize>>,
     pub acked_before_crash: RefCell<BTreeSet<u32>>,
     pub quarantined_before: RefCell<BTreeSet<usize>>,
     pub scratch_counter: std::cell::Cell<u32>,
@@ -503,6 +505,7 @@ where
         optional_records: RefCell::new(BTreeSet::new()),
         forbidden_records: RefCell::new(BTreeSet::new()),
         crash_victims: RefCell::new(BTreeSet::new()),
+        served_at_close: RefCell::new(BTreeSet::new()),
         acked_before_crash: RefCell::new(BTreeSet::new()),
         quarantined_before: RefCell::new(BTreeSet::new()),
         scratch_counter: std::cell::Cell::new(0),
